@@ -250,6 +250,91 @@ func run(r *core.Run) {
 		r.Violate("c06", cls, kase{src}, "reference: "+ref.String(), "elps: "+real.String(), "")
 	})
 	r.AddStates(total)
+	handlerSequences(r)
+}
+
+// Handler-action sequences: what a handler does while the error it handles is current.  The statement says rethrow
+// "re-raises the very error being handled": nested handling inside a handler (of the same error, rethrown, or of
+// another one) must hand the enclosing handler ITS error back when the nested form is done.  Every sequence of up to 3
+// actions runs as the body of a handler, for every trigger and under every outer context.
+var hActions = []struct{ name, src string }{
+	{"rt", "(rethrow)"},
+	{"rt-caught", "(handler-bind ([condition " + hList + "]) (rethrow))"},
+	{"rt-ignored", "(ignore-errors (rethrow))"},
+	{"rt-via-rethrower-ignored", "(ignore-errors (handler-bind ([condition " + hRethrow + "]) (rethrow)))"},
+	{"other-caught", "(handler-bind ([condition " + hList + "]) (error 'c2 2))"},
+	{"other-caught-then-rt-caught", "(handler-bind ([condition (lambda (c2 &rest d2) (handler-bind ([condition " + hTwo + "]) (rethrow)))]) (error 'c2 2))"},
+	{"print", "(debug-print 'in-handler c)"},
+	{"value", "(list 'got c (map 'list (lambda (e) (if (string? e) 'str e)) d))"}, // message strings are not compared
+	{"other-raised", "(error 'c3 3)"},
+}
+
+var hTriggers = []string{"(error 'c1 1 'a)", "(error 'c2)", "(car 1)", "undefined-sym"}
+
+var hOuters = []struct{ name, pre, post string }{
+	{"bare", "", ""},
+	{"outer-catch-all", "(handler-bind ([condition " + hList + "]) ", ")"},
+	{"outer-c1-then-more", "(handler-bind ([c1 " + hTwo + "]) ", " 'not-reached)"},
+	{"outer-ignore", "(list 'ie (ignore-errors ", "))"},
+	{"inside-outer-handler", "(handler-bind ([condition (lambda (c0 &rest d0) (list 'outer-handler ", " (ignore-errors (rethrow))))]) (error 'c0 0))"},
+}
+
+func handlerSequences(r *core.Run) {
+	type hk struct {
+		seq     []int
+		trigger int
+		outer   int
+	}
+	var seqs [][]int
+	n := len(hActions)
+	for a := 0; a < n; a++ {
+		seqs = append(seqs, []int{a})
+		for b := 0; b < n; b++ {
+			seqs = append(seqs, []int{a, b})
+			if r.Thorough() || b < 6 {
+				for c := 0; c < n; c++ {
+					seqs = append(seqs, []int{a, b, c})
+				}
+			}
+		}
+	}
+	var ks []hk
+	for _, sq := range seqs {
+		for t := range hTriggers {
+			for o := range hOuters {
+				ks = append(ks, hk{sq, t, o})
+			}
+		}
+	}
+	r.Bound("handler_sequence_programs", len(ks))
+	core.ParallelRange(r, int64(len(ks)), nil, func(_ struct{}, i int64) {
+		k := ks[i]
+		var body, names []string
+		for _, a := range k.seq {
+			body = append(body, hActions[a].src)
+			names = append(names, hActions[a].name)
+		}
+		src := prelude + hOuters[k.outer].pre + "(handler-bind ([condition (lambda (c &rest d) " + strings.Join(body, " ") + ")]) " + hTriggers[k.trigger] + ")" + hOuters[k.outer].post
+		ref, real := runRef(src), runReal(src)
+		r.AddEvals(1)
+		r.AddTransitions(1)
+		r.AddTraces(1)
+		r.AddStates(1)
+		r.Nontrivial(src)
+		r.Outcome("hseq:" + ref.Class + "/" + real.Class + ":" + ifs(real.Class == "err", real.Text, ""))
+		if i%3001 == 11 {
+			r.Sample(kase{src})
+		}
+		if agree(ref, real) {
+			return
+		}
+		cls := ref.Class + "-vs-" + real.Class + ":hseq:" + strings.Join(names, ",")
+		if r.Seen(cls) >= 1 {
+			r.CountOnly(cls)
+			return
+		}
+		r.Violate("c06", cls, kase{src}, "reference: "+ref.String(), "elps: "+real.String(), "")
+	})
 }
 
 func ifs(c bool, a, b string) string {
